@@ -163,6 +163,12 @@ def run(F, R, tier):
         rows = set()
         for q in tab.paths:
             rows.add((b64_of(q, UNP), b64_of(q, PRO), crit_of(q), "Ok" if SR.is_success(q.ret) else "Err"))
+        # every accepting path *established* that there is no unprotected b64: either there is no unprotected header or its b64 was
+        # looked at and found absent (a path that never looks accepts an unprotected b64)
+        for q in tab.paths:
+            if SR.is_success(q.ret) and not SR.is_failure(q.ret):
+                est = q.variant.get(UNP) == "None" or b64_of(q, UNP) == "None"
+                r3.require(est, (bfn, "unprotected-b64", "unexamined"), "validate_b64 accepts on a path that never established that the unprotected header carries no b64: %s" % (q.describe()[:200] or "(unconditional)"))
         for row in sorted(rows, key=str):
             r3.site("validate_b64 row: unprotected b64 %s, protected b64 %s, protected crit %s → %s" % row)
         r3.require(not any(u == "Some" and o == "Ok" for u, b, c, o in rows) and any(u == "Some" for u, b, c, o in rows), (bfn, "unprotected-b64", "missing"),
